@@ -20,7 +20,10 @@
 //!   frames  : - | comma separated hex ADUs; each is handed to the reader as one chunk and the task
 //!             is run until it is parked before the next is sent. An entry `@min` / `@max` instead
 //!             sends ServerCommand::ChangeDecoding through the session's command channel (and
-//!             produces no reply entry).
+//!             produces no reply entry). `@shutdown` sends ServerCommand::Shutdown, `@close` drops the
+//!             only ServerHandle (the command channel closes). `@block` makes every write to the
+//!             transport pend from now on, `@unblock` lets the pending and all later writes complete
+//!             (what is written then is attributed to the last frame sent while blocked).
 //! argument `--decode min|max` (default min) sets the initial decode level: min = nothing,
 //! max = (DataValues, Payload, Data). A tracing subscriber that formats every event into a sink is
 //! installed once per process so that the Display / Loggable code really runs.
@@ -33,8 +36,13 @@
 //!             iterator's addresses are consecutive (bits as 0/1 chars, registers as 4 hex digits),
 //!             otherwise !addr=value+...
 //!             au.<kind 0..7>.<unit>.(r<start>.<count>|i<index>).<rolehex>
-//!   end     : open | PANIC | the RequestError variant name that ended the session
+//!   end     : open | blocked (parked in a reply write that pends) | PANIC | the RequestError variant name
+//!             that ended the session
+use std::pin::Pin;
 use std::sync::{Arc, Mutex};
+use std::task::{Context, Poll, Waker};
+
+use tokio::io::{AsyncRead, AsyncWrite, ReadBuf};
 
 use rodbus::server::{
     Authorization, AuthorizationHandler, ReadOnlyAuthorizationHandler, RequestHandler, ServerHandlerMap, WriteCoils,
@@ -48,6 +56,43 @@ use crate::util::{hex, unhex};
 use crate::wire::{settle, Wire};
 
 pub type Log = Arc<Mutex<Vec<String>>>;
+
+/// the scripted wire with a gate on its write side: while `blocked`, writes pend
+#[derive(Default)]
+struct GateState {
+    blocked: bool,
+    pending: bool,
+    waker: Option<Waker>,
+}
+struct Gate {
+    wire: Wire,
+    st: Arc<Mutex<GateState>>,
+}
+impl AsyncRead for Gate {
+    fn poll_read(mut self: Pin<&mut Self>, cx: &mut Context<'_>, buf: &mut ReadBuf<'_>) -> Poll<std::io::Result<()>> {
+        Pin::new(&mut self.wire).poll_read(cx, buf)
+    }
+}
+impl AsyncWrite for Gate {
+    fn poll_write(mut self: Pin<&mut Self>, cx: &mut Context<'_>, b: &[u8]) -> Poll<std::io::Result<usize>> {
+        {
+            let mut g = self.st.lock().unwrap();
+            if g.blocked {
+                g.pending = true;
+                g.waker = Some(cx.waker().clone());
+                return Poll::Pending;
+            }
+            g.pending = false;
+        }
+        Pin::new(&mut self.wire).poll_write(cx, b)
+    }
+    fn poll_flush(self: Pin<&mut Self>, _cx: &mut Context<'_>) -> Poll<std::io::Result<()>> {
+        Poll::Ready(Ok(()))
+    }
+    fn poll_shutdown(self: Pin<&mut Self>, _cx: &mut Context<'_>) -> Poll<std::io::Result<()>> {
+        Poll::Ready(Ok(()))
+    }
+}
 
 pub struct Handler {
     unit: u8,
@@ -380,23 +425,62 @@ fn run_case(line: &str, decode: DecodeLevel) -> String {
     let (replies, end) = rt.block_on(async move {
         let wire = Wire::new();
         let (tx, rx) = tokio::sync::mpsc::channel(4);
-        let mut handle = ServerHandle::new(tx);
-        let io = Box::new(wire.clone());
+        let mut handle = Some(ServerHandle::new(tx));
+        let gate = Arc::new(Mutex::new(GateState::default()));
+        let io = Box::new(Gate { wire: wire.clone(), st: gate.clone() });
         let task = tokio::spawn(async move { run_server_session(io, map, auth, framing, decode, rx).await });
         let mut replies: Vec<String> = Vec::new();
+        let mut last_blocked: Option<usize> = None;
         settle().await;
         for fr in frames {
             if task.is_finished() {
                 break;
             }
-            if let Some(level) = fr.strip_prefix('@') {
-                let _ = handle.set_decode_level(decode_level(level)).await;
+            if let Some(cmd) = fr.strip_prefix('@') {
+                match cmd {
+                    "shutdown" => {
+                        if let Some(h) = handle.as_mut() {
+                            let _ = h.shutdown().await;
+                        }
+                    }
+                    "close" => {
+                        handle = None;
+                    }
+                    "block" => {
+                        gate.lock().unwrap().blocked = true;
+                    }
+                    "unblock" => {
+                        let w = {
+                            let mut g = gate.lock().unwrap();
+                            g.blocked = false;
+                            g.waker.take()
+                        };
+                        if let Some(w) = w {
+                            w.wake();
+                        }
+                        settle().await;
+                        let out = wire.take_out().concat();
+                        if let (Some(ix), false) = (last_blocked, out.is_empty()) {
+                            replies[ix] = hex(&out);
+                        }
+                        last_blocked = None;
+                        continue;
+                    }
+                    level => {
+                        if let Some(h) = handle.as_mut() {
+                            let _ = h.set_decode_level(decode_level(level)).await;
+                        }
+                    }
+                }
                 settle().await;
                 continue;
             }
             wire.push(&unhex(&fr));
             settle().await;
             let out = wire.take_out().concat();
+            if gate.lock().unwrap().blocked {
+                last_blocked = Some(replies.len());
+            }
             replies.push(if out.is_empty() { "-".to_string() } else { hex(&out) });
         }
         let end = if task.is_finished() {
@@ -410,7 +494,7 @@ fn run_case(line: &str, decode: DecodeLevel) -> String {
             }
         } else {
             task.abort();
-            "open".to_string()
+            if gate.lock().unwrap().pending { "blocked".to_string() } else { "open".to_string() }
         };
         (replies, end)
     });
